@@ -956,7 +956,8 @@ impl World {
             Err(e) => {
                 self.stats.hit("op.push-refused");
                 self.stats.hit(crate::world_search::classify_refusal(ml, &info));
-                self.refusal_is_atomic(&before, len0, count0, &format!("refused push of {}", ml.pretty()))?;
+                let undo_path = World::names_pseudo_legal(&info, ml);
+                self.refusal_is_atomic(&before, len0, count0, &format!("refused push of {}", ml.pretty()), undo_path)?;
                 self.judge_refuse(&den, ml, &info.pos, &e)?;
                 self.expect_spy(&[])?;
                 if info.pseudo.iter().any(|p| !info.legal.contains(p)) {
@@ -1047,10 +1048,35 @@ impl World {
         Ok(Exec::Done)
     }
 
-    fn refusal_is_atomic(&mut self, before: &Full, len0: usize, count0: usize, what: &str) -> Result<(), Violation> {
+    /// Is this value one whose refusal goes through the library's make -> test king ->
+    /// un-make path, i.e. does it name a pseudo-legal (king-exposing) move? Only then is a
+    /// botched rollback an *undo* defect (C04); otherwise the library had no business
+    /// touching the board at all, which is C02's and C13's concern.
+    pub(crate) fn names_pseudo_legal(info: &Info, ml: &MoveLike) -> bool {
+        match ml {
+            MoveLike::Move(m) => info.pseudo.contains(m),
+            MoveLike::UciMove { src, dst, promo } => info
+                .pseudo
+                .iter()
+                .any(|p| p.src == *src && p.dst == *dst && p.promo_piece() == *promo),
+            MoveLike::UciStr(s) => match crate::denote::parse_known_uci(s) {
+                Some(Some((src, dst, promo))) => info
+                    .pseudo
+                    .iter()
+                    .any(|p| p.src == src && p.dst == dst && p.promo_piece() == promo),
+                _ => false,
+            },
+            _ => false,
+        }
+    }
+
+    fn refusal_is_atomic(&mut self, before: &Full, len0: usize, count0: usize, what: &str, undo_path: bool) -> Result<(), Violation> {
         let after = Full::of(self.chain.last());
         if let Some(d) = before.diff(&after) {
             for p in [C02, C13, C04] {
+                if p == C04 && !undo_path {
+                    continue;
+                }
                 if self.on(p) {
                     return Err(self.fail(
                         p,
@@ -1216,7 +1242,12 @@ impl World {
         let after = Full::of(self.chain.last());
         if let Some(snap) = &self.rc.seen[len0 - 1] {
             if let Some(d) = after.diff(&Full::of(snap)) {
+                // C04 speaks about semilegal moves: blame it only if the popped move was one
+                let was_pseudo = pos_of(snap).pseudo_legal().contains(&rmove_of(&want_mv));
                 for p in [C04, C13] {
+                    if p == C04 && !was_pseudo {
+                        continue;
+                    }
                     if self.on(p) {
                         return Err(self.fail(
                             p,
